@@ -56,7 +56,7 @@ def translate(ops):
             else:
                 labels += [f"LStart {a} false", f"LStep {a}", f"LStep {a}", f"LFinish {a}"]
                 finished(a)
-        elif k in ("stop", "kill"):
+        elif k in ("stop", "kill", "err", "panic"):
             a = op[1]
             hops.append(f"{k} {a}")
             labels += [f"LStop {a}", f"LStep {a}", f"LStep {a}"]
@@ -152,7 +152,8 @@ def gen_history(rng):
             ops.append(["go", a, ok])
         elif r < 0.58 and run:
             a = rng.choice(run)
-            k = rng.choice(["stop", "stop", "kill"])
+            # (a remote-id handle cannot be sent a plain message: only stop/kill for those)
+            k = rng.choice(["stop", "stop", "kill"] + ([] if acts[a]["remote"] else ["err", "panic"]))
             acts[a]["phase"] = "psparked" if (k == "stop" and acts[a]["ps"]) else "stopped"
             if holder.get(acts[a]["name"]) == a and not acts[a]["remote"]:
                 del holder[acts[a]["name"]]
